@@ -25,6 +25,7 @@ import (
 	"strings"
 	"sync"
 	"testing"
+	"time"
 
 	"pgregory.net/rapid"
 )
@@ -81,7 +82,8 @@ type Stats struct {
 	notes                  []string
 	inconcl                []string
 
-	last *pending // last failure seen inside a rapid property (the shrunk one at the end)
+	last         *pending  // last failure seen inside a rapid property (the shrunk one at the end)
+	firstFailure time.Time // when the first failure of this rapid.Check was seen
 
 	findings []Finding
 	live     map[string]bool // finding id -> probe fails on this tree
@@ -389,9 +391,54 @@ func (s *Stats) Report(t *rapid.T, f *Failure, c any) {
 	}
 	b, _ := json.Marshal(c)
 	s.mu.Lock()
+	first := s.last == nil
+	if first {
+		s.firstFailure = time.Now()
+	}
 	s.last = &pending{f: f, c: b}
 	s.mu.Unlock()
+	if first {
+		// record the (not yet shrunk) failure at once: if shrinking is slow and the
+		// worker is stopped at its time budget, the violation is not lost
+		s.addViolation(Violation{Sig: f.Sig, Msg: f.Msg, Kind: "search-unshrunk", Case: b})
+		s.Flush()
+		s.mu.Lock()
+		var keep []Violation
+		for _, v := range s.violations {
+			if v.Kind != "search-unshrunk" {
+				keep = append(keep, v)
+			}
+		}
+		s.violations = keep
+		s.mu.Unlock()
+	}
 	t.Fatalf("%v", f)
+}
+
+// ShrinkBudget is how long rapid may keep executing shrink candidates of a
+// slow property after the first failure before SkipShrink cuts it short.
+var ShrinkBudget = 25 * time.Second
+
+// SkipShrink is called by slow properties before they execute a case. Once a
+// failure has been on record for longer than ShrinkBudget, every candidate
+// other than the best failing case so far is skipped, so that shrinking ends
+// with that case instead of running into the check's time budget (a failing
+// case of a tailer or runtime property can cost seconds: it waits for lines
+// that never arrive).
+func (s *Stats) SkipShrink(t *rapid.T, c any) {
+	s.mu.Lock()
+	l, since := s.last, s.firstFailure
+	s.mu.Unlock()
+	if l == nil || since.IsZero() || time.Since(since) < ShrinkBudget {
+		return
+	}
+	b, _ := json.Marshal(c)
+	if string(b) != string(l.c) {
+		t.Skip("shrink budget used up")
+	}
+	// the best failing case again (many shrink candidates decode to the same
+	// values): its verdict is on record, do not pay for it once more
+	t.Fatalf("%v", l.f)
 }
 
 // Check runs rapid.Check around prop, converts a panic of the code under test
@@ -400,6 +447,7 @@ func (s *Stats) Report(t *rapid.T, f *Failure, c any) {
 func (s *Stats) Check(t *testing.T, prop func(t *rapid.T)) {
 	s.mu.Lock()
 	s.last = nil
+	s.firstFailure = time.Time{}
 	s.mu.Unlock()
 	failedBefore := t.Failed() // a failing probe or saved replay, recorded already
 	// rapid ends a failing test with FailNow (Goexit), so promote the last
